@@ -5,6 +5,7 @@ import toml
 from codemodder.project_analysis.file_parsers.package_store import (
     FileType,
     PackageStore,
+    parse_requirement,
 )
 
 from .base_parser import BaseParser
@@ -34,8 +35,8 @@ class PyprojectTomlParser(BaseParser):
 
         if poetry_data:
             poetry_dependencies = [
-                f"{name}{version}"
-                for name, version in poetry_data.get("dependencies", {}).items()
+                _poetry_requirement(name, spec)
+                for name, spec in poetry_data.get("dependencies", {}).items()
                 if name != "python"
             ]
 
@@ -48,3 +49,14 @@ class PyprojectTomlParser(BaseParser):
             dependencies=set(project_dependencies + poetry_dependencies),
             py_versions=[version] if version else [],
         )
+
+
+def _poetry_requirement(name: str, spec) -> str:
+    """
+    Poetry entries may be tables (version, extras, markers, git, path...) or use
+    operators that cannot be expressed as a PEP 508 string. Keep at least the name
+    so that the package still counts as declared.
+    """
+    version = spec.get("version", "") if isinstance(spec, dict) else spec
+    requirement = f"{name}{version}"
+    return requirement if parse_requirement(requirement) else name
